@@ -69,6 +69,9 @@ def build_kwargs(opts, w=None):
         kw.setdefault('hooks', {})['spawn'] = sc.spawn
         kw['hooks']['fs_yield'] = sc.fs_yield
         kw['_scheduler'] = sc
+    if opts.get('c14') and 'fault' in opts and opts['fault'].get('phases') == ['root']:
+        from .checks.c14 import model_after
+        kw['model_after'] = model_after
     if 'model_setup_fail' in opts and w is not None:
         kw['model_setup_fail'] = {w.ap(r): OSError(errno.EIO, 'injected fault (model)')
                                   for r in opts['model_setup_fail']}
